@@ -277,8 +277,9 @@ def mutate(rnd, ctx, tree, unknown=0.0):
             else:
                 row2 = inst_row(rnd, r)
             k2 = ctx.ident(row2)
-            if k2 is None or k2 in seen:
-                continue
+            if k2 is None or k2 in seen or k2[0] != r["id"]:
+                continue      # (the changed line must still belong to the same rule: a new value may not turn it into a line of another,
+                #                e.g. case-insensitive, rule)
             seen.add(k2)
             out[row2] = odict()
             continue
